@@ -1374,3 +1374,110 @@ Section BackOk.
         injection H as <- _ _ ->. exact (IH _ _ _ _ _ _ _ _ _ _ _ _ E2 Hf).
   Qed.
 End BackOk.
+
+(** * 14. Adoption facts of the phase level, lifted to the phase loop (C01 / C02 at the controller level) *)
+Section Adoption.
+  Variable force : bool.
+  Local Notation c := (Build_cfg FObjectSet force).
+
+  Lemma rpm_local_forall (P : ev -> Prop) s ow prev phs : forall sw acc rem sw' evs rem' r,
+    (forall ph, In ph phs -> ph_class ph = false -> forall w w' e1 r1,
+       reconcile_phase c idw w ow prev false (ph_objects ph) = (w', e1, r1) -> Forall P e1) ->
+    reconcile_phases_m force sw s ow prev phs acc rem = (sw', evs, rem', r) ->
+    Forall P (member_evs evs).
+  Proof.
+    induction phs as [|ph rest IH]; intros sw acc rem sw' evs rem' r HP H.
+    - cbn in H. injection H as _ <- _ _. constructor.
+    - assert (HP' : forall q, In q rest -> ph_class q = false -> forall w w' e1 r1,
+                reconcile_phase c idw w ow prev false (ph_objects q) = (w', e1, r1) -> Forall P e1) by (intros q Hq; apply HP; now right).
+      rewrite rpm_cons in H. destruct (ph_class ph) eqn:Ecl.
+      + destruct (remote_reconcile sw s ph rem) as [[[sw1 e1] rem1] r1] eqn:E1.
+        destruct (remote_reconcile_inv _ _ _ _ _ _ _ _ E1) as (_ & _ & _ & Hev & _).
+        pose proof (only_phase_members _ _ Hev) as Hm1.
+        destruct r1 as [|active failed]; [injection H as _ <- _ _; rewrite Hm1; constructor|].
+        destruct failed; [injection H as _ <- _ _; rewrite Hm1; constructor|].
+        destruct (reconcile_phases_m force sw1 s ow prev rest (acc ++ active) rem1) as [[[sw2 e2] rem2] r2] eqn:E2.
+        injection H as _ <- _ _. rewrite member_evs_app, Hm1. cbn [app]. eapply IH; eauto.
+      + destruct (reconcile_phase c idw (sw_w sw) ow prev false (ph_objects ph)) as [[w1 e1] r1] eqn:E1.
+        pose proof (HP ph (or_introl eq_refl) Ecl _ _ _ _ E1) as H1.
+        destruct r1 as [e|vs|actual failed]; try (injection H as _ <- _ _; rewrite member_evs_members; exact H1).
+        destruct failed as [|f fs]; [|injection H as _ <- _ _; rewrite member_evs_members; exact H1].
+        cbv zeta in H.
+        match type of H with context [reconcile_phases_m force ?a s ow prev rest ?b ?d] =>
+          destruct (reconcile_phases_m force a s ow prev rest b d) as [[[sw2 e2] rem2] r2] eqn:E2 end.
+        injection H as _ <- _ _. rewrite member_evs_app, member_evs_members. apply Forall_app. split; [exact H1|eapply IH; eauto].
+  Qed.
+
+  (** an existing object the owner neither controls nor may adopt under any local entry is untouched by the loop *)
+  Lemma rpm_untouched s ow prev k o phs : forall sw acc rem sw' evs rem' r,
+    reconcile_phases_m force sw s ow prev phs acc rem = (sw', evs, rem', r) ->
+    lookup k (w_store (sw_w sw)) = Some o -> is_controller Native (ow_id ow) o = false ->
+    (forall ph, In ph phs -> ph_class ph = false -> not_permitted_any c ow prev (ph_objects ph) k o) ->
+    lookup k (w_store (sw_w sw')) = Some o /\ Forall (fun e => ev_key e <> k) (member_evs evs).
+  Proof.
+    induction phs as [|ph rest IH]; intros sw acc rem sw' evs rem' r H El Hc Hnp.
+    - cbn in H. injection H as <- <- _ _. split; [exact El|constructor].
+    - assert (Hnp' : forall q, In q rest -> ph_class q = false -> not_permitted_any c ow prev (ph_objects q) k o) by (intros q Hq; apply Hnp; now right).
+      rewrite rpm_cons in H. destruct (ph_class ph) eqn:Ecl.
+      + destruct (remote_reconcile sw s ph rem) as [[[sw1 e1] rem1] r1] eqn:E1.
+        destruct (remote_reconcile_inv _ _ _ _ _ _ _ _ E1) as (Hst & _ & _ & Hev & _).
+        pose proof (only_phase_members _ _ Hev) as Hm1.
+        assert (El1 : lookup k (w_store (sw_w sw1)) = Some o) by now rewrite Hst.
+        destruct r1 as [|active failed]; [injection H as <- <- _ _; rewrite Hm1; split; [exact El1|constructor]|].
+        destruct failed; [injection H as <- <- _ _; rewrite Hm1; split; [exact El1|constructor]|].
+        destruct (reconcile_phases_m force sw1 s ow prev rest (acc ++ active) rem1) as [[[sw2 e2] rem2] r2] eqn:E2.
+        injection H as <- <- _ _. rewrite member_evs_app, Hm1. cbn [app]. eapply IH; eauto.
+      + destruct (reconcile_phase c idw (sw_w sw) ow prev false (ph_objects ph)) as [[w1 e1] r1] eqn:E1.
+        assert (H1 : lookup k (w_store w1) = Some o /\ Forall (fun e => ev_key e <> k) e1).
+        { unfold reconcile_phase in E1. destruct (flat_map _ (ph_objects ph)); [|injection E1 as <- <- _; split; [exact El|constructor]].
+          eapply (rec_objs_untouched c); eauto. apply Hnp; [now left|exact Ecl]. }
+        destruct H1 as [El1 He1].
+        destruct r1 as [e|vs|actual failed]; try (injection H as <- <- _ _; rewrite member_evs_members; split; [exact El1|exact He1]).
+        destruct failed as [|f fs]; [|injection H as <- <- _ _; rewrite member_evs_members; split; [exact El1|exact He1]].
+        cbv zeta in H.
+        match type of H with context [reconcile_phases_m force ?a s ow prev rest ?b ?d] =>
+          destruct (reconcile_phases_m force a s ow prev rest b d) as [[[sw2 e2] rem2] r2] eqn:E2 end.
+        injection H as <- <- _ _. rewrite member_evs_app, member_evs_members.
+        destruct (IH _ _ _ _ _ _ _ E2 El1 Hc Hnp') as [El2 He2]. split; [exact El2|apply Forall_app; auto].
+  Qed.
+
+  (** a collision error of the loop comes from a listed object that exists (before the loop), is not controlled and
+      may not be adopted *)
+  Lemma rpm_collision s ow prev phs : forall sw acc rem sw' evs rem' e,
+    reconcile_phases_m force sw s ow prev phs acc rem = (sw', evs, rem', MErr e) -> is_collision e = true ->
+    NoDup (local_keys ow phs) ->
+    exists ph p o, In ph phs /\ ph_class ph = false /\ In p (ph_objects ph) /\
+                   lookup (key_of ow p) (w_store (sw_w sw)) = Some o /\ must_refuse c ow prev p o.
+  Proof.
+    induction phs as [|ph rest IH]; intros sw acc rem sw' evs rem' e H He Hnd; [cbn in H; discriminate|].
+    assert (He' : e = ErrNotPrevious \/ e = ErrRevCollision) by (destruct e; try discriminate; auto).
+    rewrite rpm_cons in H. destruct (ph_class ph) eqn:Ecl.
+    - rewrite (local_keys_cons_remote _ _ _ Ecl) in Hnd.
+      destruct (remote_reconcile sw s ph rem) as [[[sw1 e1] rem1] r1] eqn:E1.
+      destruct (remote_reconcile_inv _ _ _ _ _ _ _ _ E1) as (Hst & _).
+      destruct r1 as [|active failed]; [discriminate|]. destruct failed; [discriminate|].
+      destruct (reconcile_phases_m force sw1 s ow prev rest (acc ++ active) rem1) as [[[sw2 e2] rem2] r2] eqn:E2.
+      injection H as _ _ _ ->. destruct (IH _ _ _ _ _ _ _ E2 He Hnd) as (q & p & o & Hq & Hcq & Hp & Hl & Hm).
+      exists q, p, o. rewrite Hst in Hl. split; [now right|auto].
+    - rewrite (local_keys_cons_local _ _ _ Ecl) in Hnd.
+      pose proof (NoDup_app_r _ _ Hnd) as Hnd_rest. pose proof (NoDup_app_l _ _ Hnd) as Hnd0.
+      destruct (reconcile_phase c idw (sw_w sw) ow prev false (ph_objects ph)) as [[w1 e1] r1] eqn:E1.
+      destruct r1 as [e0|vs|actual failed]; [|discriminate|].
+      + injection H as _ _ _ ->. unfold reconcile_phase in E1. destruct (flat_map _ (ph_objects ph)); [|discriminate].
+        destruct (rec_objs_collision_sound c _ _ _ _ _ _ _ _ _ E1 He' Hnd0) as (p & o & Hp & Hl & Hm).
+        exists ph, p, o. split; [now left|auto].
+      + destruct failed as [|f fs]; [|discriminate].
+        cbv zeta in H.
+        match type of H with context [reconcile_phases_m force ?a s ow prev rest ?b ?d] =>
+          destruct (reconcile_phases_m force a s ow prev rest b d) as [[[sw2 e2] rem2] r2] eqn:E2 end.
+        injection H as _ _ _ ->. destruct (IH _ _ _ _ _ _ _ E2 He Hnd_rest) as (q & p & o & Hq & Hcq & Hp & Hl & Hm).
+        exists q, p, o. split; [now right|]. split; [exact Hcq|]. split; [exact Hp|]. split; [|exact Hm].
+        cbn [sw_w with_w] in Hl. rewrite <- Hl. symmetry. eapply (rec_phase_frame force); [exact E1|].
+        intros p1 Hp1 Heq. apply (NoDup_app_disj _ _ (key_of ow p) Hnd).
+        * unfold phase_keys. rewrite <- Heq. apply in_map. exact Hp1.
+        * eapply in_local_keys; eauto. unfold phase_keys. now apply in_map.
+  Qed.
+
+  Lemma as_owner_same m1 m0 : same_spec m1 m0 -> os_revision m1 = os_revision m0 -> as_owner m1 = as_owner m0.
+  Proof. intros (Hid & _ & Hl & _ & Hp & _) Hr. unfold as_owner. now rewrite Hid, Hr, Hl, Hp. Qed.
+End Adoption.
